@@ -30,7 +30,9 @@ def declare(reg, eng):
                      ("lockpath", "job_lockpath")):
         reg.contract(f"Job.{prop}", params=["self"], returns="Path", modifies=[], ensures=[f"result == {fn}(self)"])
         eng.properties[f"Job.{prop}"] = True
-    reg.contract("Job.relpath", params=["self"], returns="Path", modifies=[])
+    job_relpath = z3.Function("job_relpath", Val, PathS)
+    reg.specfuns.update(job_relpath=pathfn(job_relpath))
+    reg.contract("Job.relpath", params=["self"], returns="Path", modifies=[], ensures=["result == job_relpath(self)"])
     eng.properties["Job.relpath"] = True
 
     # ---- externals / opaque callees (assumed)
@@ -83,3 +85,60 @@ def declare(reg, eng):
                  interference={"shared": SHARED, "rely": [], "guarantee": []},
                  modifies=None,
                  loops={"dependency": {"invariants": [HELD % "_i"]}})
+
+    # ------------------------------------------------------------------ aio_submit
+    xp_jobspath = z3.Function("xp_jobspath", Val, PathS)
+    reg.specfuns.update(xp_jobspath=pathfn(xp_jobspath))
+    reg.contract("experiment.current", params=[], returns="experiment", modifies=[])
+    reg.contract("experiment.jobspath", params=["self"], returns="Path", modifies=[], ensures=["result == xp_jobspath(self)"])
+    eng.properties["experiment.jobspath"] = True
+    reg.contract("experiment.alt_jobspaths", params=["self"], returns="list[Path]", fresh="list", modifies=[])
+    eng.properties["experiment.alt_jobspaths"] = True
+    reg.contract("asyncio.Event", params=[], fresh="Event", returns="Event", modifies=[], ensures=["result._set == False"])
+    reg.contract("asyncThreadcheck", params=["name", "func"], awaits=True, modifies=[], effect="threadcheck")
+    reg.contract("Mutex.__enter__", params=["self"], modifies=[])
+    reg.contract("Mutex.__exit__", params=["self"], modifies=[])
+    eng.load("Dependents.add", "scheduler/dependencies.py", inline=True)
+    reg.contract("Dependents.__enter__", params=["self"], types={"self": "Dependents"}, returns="set[Dependency]", modifies=[],
+                 ensures=["result is self._dependents"])
+    reg.contract("Dependents.__exit__", params=["self"], modifies=[])
+
+    START_MODS = ["*.available", "*.total", "*.cache", "fs", "*.starttime", "*._process", "*._level", "*.currentstatus",
+                  "*.unsatisfied", "*.state", "*._set", "*.failure_status", "*.detached"]
+    reg.contracts["Scheduler.aio_start"]["modifies"] = START_MODS
+    reg.contracts["Scheduler.aio_start"]["effect"] = "aio_start"
+
+    # rely at every await of aio_submit (what other coroutines / callbacks may do to *this* job):
+    #  R-final: a finished state of the job is not changed by others  [guaranteed by Job.dependencychanged (C06 clause),
+    #           the only foreign writer of Job.state: global-frame check]
+    RELY = ["implies(old(job.state).finished(), job.state == old(job.state))",
+            "job.identifier == old(job.identifier)"]
+    eng.load("Scheduler.aio_submit", "scheduler/base.py")
+    reg.contract("Scheduler.aio_submit", params=["self", "job"], types={"self": "Scheduler", "job": "Job"},
+                 returns="JobState", awaits=True, no_replay=True,
+                 requires=["not isnone(self.xp.central)", "isstr(job.identifier)",
+                           "job.state == JobState.UNSCHEDULED"],      # a Job is submitted once, right after its construction
+                 ensures=[
+                     ("C06", "result == JobState.DONE or result == JobState.ERROR"),
+                     ("C06", "result == job.state"),
+                     ("C06", "effect_count('write:unfinishedJobs') == 1"),
+                     ("C07", "implies(result != JobState.DONE, lookup(self.xp.failedJobs, job.identifier) is job)"),
+                     ("C06", "implies(result == JobState.DONE, not haskey(self.xp.failedJobs, job.identifier) or "
+                             "lookup(self.xp.failedJobs, job.identifier) is old(lookup(self.xp.failedJobs, job.identifier)))"),
+                     ("C16", "effect('symlink_to') and effect_arg('symlink_to', 0) == p_joinp(xp_jobspath(effect_result('experiment.current')), job_relpath(job)) "
+                             "and effect_arg('symlink_to', 1) == job_path(job)"),
+                 ],
+                 effect_guards={
+                     "aio_start": [(("C04", "C05", "C07"), "job.state == JobState.READY"),
+                                   ("C05", "implies(effect('aio_process') and not isnone(effect_result('aio_process')), effect('aio_code'))")],
+                     "notify_all": [("C06", "effect_count('write:unfinishedJobs') == 1")],
+                     # every write site of Job.state: a final state is only replaced by a final state
+                     # (documented exception: DONE -> RUNNING when a live recorded process is adopted)
+                     "write:state": [(("C06", "C07"), "implies(_arg0.state.finished(), _arg1.finished() or _arg1 == JobState.RUNNING)")],
+                 },
+                 raises={"Exception": {"when": []}},
+                 interference={"shared": SHARED, "rely": RELY, "guarantee": []},
+                 modifies=None, track_writes=["unfinishedJobs", "state"],
+                 loops={"dependency#2": {"no_break": True,
+                                       "body_post": [("C07", "effect('call_soon') and bm_self(effect_arg('call_soon', 1)) is dependency")]}})
+    reg.contracts["experiment.current"]["effect"] = "experiment.current"
